@@ -94,6 +94,11 @@ def exclR (baseFirst : Bool) (b s : Out) : Out :=
         | some e => .err e
         | none => .ok true false (rb.2.2 || rs.2.2)
 
+/-- the oracle's view of a subtract outcome evaluated on a fresh path: its cycle flag is meaningless -/
+def clearFlag : Out → Out
+  | .ok false _ t => .ok false false t
+  | o => o
+
 def leafOut : Leaf → Out
   | .tt => .ok true false false
   | .ff => .ok false false false
@@ -125,6 +130,11 @@ inductive Eval {N : Type} (sys : Sys N) (maxDepth : Nat) : Nat → List N → Ex
   | diff {d V} (b s : Expr N) (ob os : Out) (baseFirst : Bool) :
       Eval sys maxDepth d V b ob → Eval sys maxDepth d V s os →
       Eval sys maxDepth d V (.diff b s) (exclR baseFirst ob os)
+  /-- not what the code does: the subtracted operand is evaluated on a fresh path and its cycle flag is
+  ignored.  Used by the reference oracle (and it is the repair suggested for finding F1). -/
+  | diff_ideal {d V} (b s : Expr N) (ob os : Out) (baseFirst : Bool) :
+      Eval sys maxDepth d V b ob → Eval sys maxDepth d [] s os →
+      Eval sys maxDepth d V (.diff b s) (exclR baseFirst ob (clearFlag os))
 
 /-! ### executable instance -/
 
@@ -133,6 +143,8 @@ inductive Eval {N : Type} (sys : Sys N) (maxDepth : Nat) : Nat → List N → Ex
 structure Sched where
   reverse : Bool := false
   baseFirst : Bool := true
+  /-- oracle mode: subtract operands on a fresh path, flag ignored (see `Eval.diff_ideal`) -/
+  ideal : Bool := false
 
 def arrange (sc : Sched) (l : List Out) : List Out := if sc.reverse then l.reverse else l
 
@@ -149,7 +161,57 @@ def evalF {N : Type} [DecidableEq N] (sys : Sys N) (maxDepth : Nat) (sc : Sched)
       else evalF sys maxDepth sc fuel d' (n :: V) (sys.rule n)
     | .or es => unionR (arrange sc (es.map (evalF sys maxDepth sc fuel d V)))
     | .and es => interR (arrange sc (es.map (evalF sys maxDepth sc fuel d V)))
-    | .diff b s => exclR sc.baseFirst (evalF sys maxDepth sc fuel d V b) (evalF sys maxDepth sc fuel d V s)
+    | .diff b s =>
+      if sc.ideal then
+        exclR sc.baseFirst (evalF sys maxDepth sc fuel d V b) (clearFlag (evalF sys maxDepth sc fuel d [] s))
+      else exclR sc.baseFirst (evalF sys maxDepth sc fuel d V b) (evalF sys maxDepth sc fuel d V s)
+
+/-! ### executable outcome *sets*: every arrival order of the two `exclusion` goroutines, children of the
+pooled reducers in program order (breadth limit 1).  Used by drivers to compare with an implementation
+whose `exclusion` races. -/
+
+def dedup (l : List Out) : List Out := l.foldl (fun acc o => if acc.contains o then acc else acc ++ [o]) []
+
+/-- all results of `reducer` over one choice of outcome per child (children in program order) -/
+def combos : List (List Out) → List (List Out)
+  | [] => [[]]
+  | os :: rest => (combos rest).flatMap (fun tail => os.map (fun o => o :: tail))
+
+/-- state-set version of the `union` loop, to avoid enumerating combinations -/
+def unionSetGo : List (List Out) → List (Option ErrKind × Bool × Bool) → List Out → List Out
+  | [], states, acc =>
+      dedup (acc ++ states.map (fun (fe, cyc, tnt) => match fe with | some e => .err e | none => .ok false cyc tnt))
+  | os :: rest, states, acc =>
+      let step := states.flatMap (fun (fe, cyc, tnt) => os.map (fun o =>
+        match o with
+        | .err e => (some (some e, cyc, tnt), none)
+        | .ok a c t => if a then (none, some (Out.ok true c t)) else (some (fe, cyc || c, tnt || t), none)))
+      let states' := (step.filterMap (·.1)).foldl (fun acc s => if acc.contains s then acc else acc ++ [s]) []
+      unionSetGo rest states' (dedup (acc ++ step.filterMap (·.2)))
+
+def unionSet (children : List (List Out)) : List Out := unionSetGo children [(none, false, false)] []
+
+def interSet (children : List (List Out)) : List Out :=
+  if children.length ≤ 6 then dedup ((combos children).map interR)
+  else dedup ((combos (children.map (fun os => os.take 1))).map interR)
+
+def evalS {N : Type} [DecidableEq N] (sys : Sys N) (maxDepth : Nat) :
+    Nat → Nat → List N → Expr N → List Out
+  | 0, _, _, _ => [.err .abort]
+  | fuel + 1, d, V, e =>
+    match e with
+    | .lit v => [leafOut v]
+    | .node dispatch n =>
+      let d' := if dispatch then d + 1 else d
+      if d' = maxDepth then [.err .depth]
+      else if n ∈ V then [.ok false true false]
+      else evalS sys maxDepth fuel d' (n :: V) (sys.rule n)
+    | .or es => unionSet (es.map (evalS sys maxDepth fuel d V))
+    | .and es => interSet (es.map (evalS sys maxDepth fuel d V))
+    | .diff b s =>
+      let ob := evalS sys maxDepth fuel d V b
+      let os := evalS sys maxDepth fuel d V s
+      dedup (ob.flatMap (fun x => os.flatMap (fun y => [exclR true x y, exclR false x y])))
 
 /-- The executable evaluator is one of the evaluations the relation allows. -/
 theorem evalF_eval {N : Type} [DecidableEq N] (sys : Sys N) (maxDepth : Nat) (sc : Sched) :
@@ -188,6 +250,8 @@ theorem evalF_eval {N : Type} [DecidableEq N] (sys : Sys N) (maxDepth : Nat) (sc
         · exact List.Perm.refl _
     | diff b s =>
       simp only [evalF]
-      exact .diff b s _ _ sc.baseFirst (ih _ _ _) (ih _ _ _)
+      split
+      · exact .diff_ideal b s _ _ sc.baseFirst (ih _ _ _) (ih _ _ _)
+      · exact .diff b s _ _ sc.baseFirst (ih _ _ _) (ih _ _ _)
 
 end OpenFGAVerif.Dfs
